@@ -34,8 +34,11 @@ CHECKS = {
          'with exactly the requested method and direction; requests that cannot be honoured raise; a forward request is never '
          'answered by an inverse. Decided by vm_compute on the enumerated space (bound stated in the theorem). Every cell is '
          'executed on the implementation on every run (exhaustive tie) and classified by an independent closed-form Gaussian '
-         'Abel pair as raise/forward/inverse.'),
-   note=BASE_NOTE + 'Model of the guards is hand-written; it is compared with the implementation on all cells; theorems are closed under the global context (no axioms).',
+         'Abel pair as raise/forward/inverse, in three cache states (empty, after valid requests of the same method, repeated), plus the '
+         'linbasex quadrant front end. The direction guards, the shape guards and the sets of accepted option names of the model are REGENERATED from the '
+         'current source on every run (tools/translate/dir_guards.py, opt_names.py) and proved equal to the model / to the documented sets '
+         '(C20_direction_guards_are_source, C20_shape_guards_are_source, C20_option_names_are_source).'),
+   note=BASE_NOTE + 'Model of the guards is hand-written; direction/shape guards and option-name sets are tied by translators, the rest by executing all cells; option-FORMAT guards (tuple vs string, SVD factor range) are tied by execution only; theorems are closed under the global context (no axioms).',
    technique='Coq decision-table model, finite-domain proof by computation + exhaustive execution of the request grid',
    design='DESIGN.md §3 C20'),
  'C01': dict(
@@ -46,7 +49,8 @@ CHECKS = {
          'coefficients is the exact Abel projection of the spanned function and any left inverse returns the coefficients; per-run Interval goals tie the '
          'floats of the Python oracles to the Coq terms. The property\'s envelope, refinement and dr clauses for the ten numerical '
          'schemes are NOT theorems: they are decided by a numeric sweep (all methods, documented options, families, sizes) against '
-         'calibrated envelope laws (1.5 x fitted K (dr/scale)^q) and produce replays; C09/C03/C04 carry the exactness theorems.'),
+         'calibrated envelope laws (1.5 x fitted K (dr/scale)^q) and produce replays; C09/C03/C04 carry the exactness theorems. Stability statements '
+         'C01_inverse_daun0_error_partial / C01_inverse_onion_peeling_error_partial bound the inverse error by L n sum|X i k| for any left inverse X (no bound on the inverse norm: partial).'),
    note=BASE_NOTE + 'Envelope/refinement clauses swept only (discretisation-error analysis of ten schemes is not mechanised); Gaussian integral value and equivalence of proper/singular Abel forms trusted; ring projections by scipy quadrature; two recorded refinement-floor findings.',
    technique='Coq/Coquelicot proofs of the Abel-pair oracles + Interval-checked oracle tie + calibrated numeric sweep (labelled swept, not proved)',
    design='DESIGN.md §3 C01, §6'),
@@ -55,7 +59,9 @@ CHECKS = {
          'transform of f(r/a) scales by a, i.e. the absolute scale set by dr; forward_exact_on_span for daun degrees 0-2: the forward matrix '
          'times the coefficients is the exact projection at every pixel), per-run Interval goals for the oracle floats; the '
          'envelope, refinement and exact-dr clauses for basex, daun, direct, hansenlaw, rbasex are decided by the calibrated numeric '
-         'sweep with replays.'),
+         'sweep with replays. PROVED convergence for the daun forward operators (all n, all pixels, Coquelicot): C02_forward_daun0_phys (|h sum f(jh) P0[j][i] - Abel f (ih)| <= L R h '
+         'for L-Lipschitz f) and C02_forward_daun1_phys (<= L2/2 R h^2 for f with L2-Lipschitz derivative), tied to the implementation by per-run Interval goals enclosing the entries of the operator the code applies '
+         'and evaluated against the implementation at every pixel (proved-envelope hits).'),
    note=BASE_NOTE + 'Envelope/refinement clauses swept only; two recorded refinement-floor findings (basex correction=False, hansenlaw hold_order=1).',
    technique='Coq/Coquelicot proofs of the Abel-pair oracles + Interval-checked oracle tie + calibrated numeric sweep (labelled swept, not proved)',
    design='DESIGN.md §3 C02, §6'),
@@ -66,18 +72,19 @@ CHECKS = {
          'no correction) and rbasex per order likewise; triangular matrices with non-zero diagonal are exactly the invertible '
          'ones. Tie: regeneration + numeric validation of every generated term against the running implementation. Search: '
          'random signed half-images n=3..200, cond-scaled tolerance. The approximate class (hansenlaw, direct, corrected basex) '
-         'is swept against calibrated envelopes only (not a theorem).'),
+         'is swept against calibrated envelopes only (not a theorem). The round trips are also checked with the operators the library actually uses after random operation '
+         'histories (with/without basis_dir, cache clean-ups, several processes).'),
    note=BASE_NOTE + 'scipy inv/solve_triangular modelled by specification (multiplication by invmx); float conditioning outside the theorem; approximate-class envelope clause swept numerically.',
    technique='Coq/mathcomp proof over source-regenerated matrix expressions + numeric translation validation + round-trip search',
    design='DESIGN.md §3 C03'),
  'C04': dict(
    text=('Theorems: every regenerated daun/basex/dasch/rbasex transform is X *m A (row-wise, linear, row-independent); dr scaling '
-         'from the regenerated Jacobian sites (daun incl. Tikhonov, basex, dasch, onion_bordas; direct partial); Hansen-Law '
+         'from the regenerated Jacobian sites (daun incl. Tikhonov, basex incl. correction, dasch, onion_bordas; C04_dr_direct: the whole direct integral with and without correction); Hansen-Law recursion REGENERATED from the source and proved equal to the model (C04_hansenlaw_model_is_source); Hansen-Law '
          'recursion linear, row-wise and dr-scaling by induction over columns for arbitrary coefficient tables; NNLS solvers '
          'positively homogeneous (solver by specification); symmetrisation linear (over the C06 model). Tie: translators + '
          'numeric validation of generated terms + vm_compute runs of the Hansen-Law model against the implementation. Search: '
          'operator extraction on the implementation for all ten methods and the image tools (linearity with negative '
-         'coefficients, row independence, dr).'),
+         'coefficients, row independence, dr, integer-typed images = float copies).'),
    note=BASE_NOTE + 'Linearity of direct, onion_bordas, linbasex, rbasex image synthesis, set_center, radial_intensity, Distributions is checked on the implementation only; scipy.ndimage interpolation assumed linear; Hansen-Law Q instance rounds to 120 bits.',
    technique='Coq proofs (mathcomp + induction) over regenerated expressions + operator extraction on implementation',
    design='DESIGN.md §3 C04'),
@@ -110,11 +117,11 @@ CHECKS = {
    text=('Theorems (Coquelicot, unbounded in indices and sizes) over closed forms REGENERATED from the current source by '
          'tools/translate/formulas_basis.py: every daun entry of degrees 0-2 and the degree-3 Hermite pair equals the Abel integral of '
          'its basis function; onion-peeling W equals the degree-0 projection transposed; every two_point / three_point operator '
-         'entry (rows i >= 1) equals the inverse-Abel integral of the interpolant; rbasex entries for orders 0..8 and the F '
+         'entry (all rows incl. the axis row and the last column) equals the inverse-Abel integral of the interpolant; the degree-3 row assembly (Hermite combination with the slopes of the (1,4,1) banded system, C09_daun3_spline_entry) given the banded solutions; the basex rho_k lines (C09_basex_rho_formula); prefix/crop and triangular-shape theorems; rbasex entries for orders 0..8 and the F '
          'recursion step. Tie: regeneration, bit-exact structure check of the symbolic assembly against the implementation, '
          'per-run interval/integral goals (machine-checked instances). Search: scipy quadrature of the defining integrals against '
          'the implementation incl. basex, daun 3 spline, large indices.'),
-   note=BASE_NOTE + 'basex projections and the daun-3 clamped-spline solve have no theorem (instances + quadrature sweep); Dasch axis row is a documented convention.',
+   note=BASE_NOTE + 'basex projected chi_k series has no theorem (instances + quadrature sweep); existence/accuracy of the daun-3 banded solutions are hypotheses; Dasch two_point axis entries D[0][0], D[0][1] are a documented convention; linbasex basis has no defining-integral oracle here.',
    technique='Coq/Coquelicot proofs over source-regenerated closed forms + Interval translation validation + quadrature search',
    design='DESIGN.md §3 C09'),
  'C10': dict(
@@ -126,8 +133,8 @@ CHECKS = {
          'Per-run Interval goals: ApproxGaussian segment bounds for the ranges the implementation returns, .abel of random '
          'Polynomials. Tie: regenerated formulas/translators, vm_compute and Interval correspondence on random objects, Angular.c '
          'exactly over Q. Search: quadrature of the defining integrals for all four polynomial classes, algebra laws, copies, '
-         'bspline, ApproxGaussian by dense sampling.'),
-   note=BASE_NOTE + 'SPolynomial/PiecewiseSPolynomial/bspline are swept numerically only; ApproxGaussian for all tol is instance level; one recorded finding (ApproxGaussian up to 1.065 tol in narrow bands).',
+         'bspline, ApproxGaussian by dense sampling. SPolynomial / PiecewiseSPolynomial are modelled (model/SPoly.v): C10_spoly_abel* (.abel equals the Abel transform at every pixel), C10_piecewise_s_abel, the F(k, lim) family is an antiderivative for every integer k; scalar operators incl. division on whole objects and pieces (C10_scalar_*); the executed Q instance equals the R instance (C10_model_Q2R_*).'),
+   note=BASE_NOTE + 'SPolynomial.func and PPoly.from_spline (bspline) are not proved (swept); ApproxGaussian for all tol is instance level; one recorded finding (ApproxGaussian up to 1.065 tol in narrow bands).',
    technique='Coq/Coquelicot proofs + Interval-checked instances + correspondence + quadrature search',
    design='DESIGN.md §3 C10'),
  'C11': dict(
@@ -147,7 +154,7 @@ CHECKS = {
          '(int(), Python round), order-1 fractional shift preserves total intensity and moves the centroid exactly (over R, '
          'one-pixel margin), center_image odd/square for every parity and aspect. Tie: hand-written model/Center.v vs '
          'implementation, exhaustive small-shape correspondence in exact arithmetic (vm_compute). Search: clauses on the '
-         'implementation incl. orders 2-5 with measured tolerances and dtypes.'),
+         'implementation incl. orders 2-5 with measured tolerances and dtypes, center_image handing every option to set_center, Transform(...).IM in three process states. The trimming statements of center_image and the origin preprocessing loop of set_center are REGENERATED from the source and proved equal to the model (C12_trim_model_is_source, C12_prep_model_is_source).'),
    note=BASE_NOTE + 'scipy.ndimage.shift(order=1) = linear interpolation is validated by correspondence only; orders 2-5 (spline prefilter) swept only.',
    technique='Coq proof over list-of-rows model + vm_compute correspondence + property search on implementation',
    design='DESIGN.md §3 C12'),
@@ -156,7 +163,7 @@ CHECKS = {
          'autoconvolution of a symmetric projection is maximal exactly at twice the centre and only there (so the method returns '
          'the centre on the half-pixel grid); image_center and unselected axes; translation equivariance of the convolution method for '
          'ANY image with non-zero projections (autoconvolution shifts by 2a, first argmax follows an index shift). Tie: exact integer-image correspondence of model/Origin.v. Search: equivariance, '
-         'scaling, symmetric images, Gaussian-fit on noiseless spots.'),
+         'scaling by powers of two over 2^-400..2^400 (bit-identical for all four methods), symmetric images, Gaussian-fit on noiseless spots, round_output (C13_round_* theorems: nearest integer, symmetric image gives its centre pixel), projections=True.'),
    note=BASE_NOTE + 'Gaussian-fit optimiser (scipy curve_fit) is external: swept to 1e-6 px only.',
    technique='Coq proof over exact-rational model + vm_compute correspondence + property search on implementation',
    design='DESIGN.md §3 C13'),
@@ -167,7 +174,7 @@ CHECKS = {
          'equations (end-to-end on the executable model for N <= 3, pixel-level algebra for any order over any field); the Hankel '
          'matrix is non-singular given enough distinct angles; the true (A, beta) is the unique least-squares minimiser. Tie: '
          'translator + exhaustive geometry correspondence + value correspondence (vm_compute). Search: exact-model images and '
-         'noiseless beta curves on the implementation.'),
+         'noiseless beta curves on the implementation, integer dtypes. The odd flag / number of angular terms of Distributions.__init__ are regenerated from the source (C14_init_index_translated).'),
    note=BASE_NOTE + 'N > 3 (numpy inv branch), the remap method and the curve_fit optimiser are tied by search only; executable instance uses 2^-100 fixed point; one recorded finding (reject mode at beta = -1, 2).',
    technique='Coq proofs (list model, mathcomp algebra) + regenerated inv2/inv3 + vm_compute correspondence + search',
    design='DESIGN.md §3 C14'),
@@ -175,11 +182,10 @@ CHECKS = {
    text=('Theorems: for all 18 (order <= 8, parity) cases, all real coefficient vectors and all angles the cos^n, cos^n sin^m and '
          'Legendre representations define the same angular function; I = 4 pi r^2 P0, beta_n = P_n / P0 and the moving average; '
          'origin spellings (negative index, 32 location strings) resolve to the same origin for all shapes; left-right mirror '
-         'invariance (all orders), top-bottom mirror incl. the sign change of odd orders and weight scaling (N <= 3), rmax prefix for nearest/even '
-         'orders (partial), zero-weight pixels ignored. Tie: conversion matrices and '
+         'invariance (all orders), top-bottom mirror incl. the sign change of odd orders and weight scaling (N <= 3), image scaling (C15_image_scale_cos, C15_harmonics_scale, C15_Ibeta_scale: beta unchanged for c <> 0), rmax prefix for both methods, all orders and any weights (C15_rmax_prefix), Results.orders / sinpowers regenerated from the source (C15_orders_translated), zero-weight pixels ignored. Tie: conversion matrices and '
          'representations compared with the model for all cases (vm_compute). Search: representation agreement at random angles and '
          'seven invariances on the implementation.'),
-   note=BASE_NOTE + 'Top-bottom mirror with odd orders, weight scaling and rmax prefix are swept only; "well-conditioned" = cond <= 1e8.',
+   note=BASE_NOTE + 'Top-bottom mirror and weight scaling are theorems for N <= 3 terms (the inv2/inv3 paths), swept beyond; "well-conditioned" = cond <= 1e8.',
    technique='Coq proofs incl. finite families decided by computation and lifted by linearity + vm_compute correspondence + search',
    design='DESIGN.md §3 C15'),
  'C16': dict(
@@ -188,7 +194,7 @@ CHECKS = {
          'for every shape and origin; distributions independent of out; invalid radii zero; after the repair of the _ibs cache the '
          'image after any history of out values equals the fresh-cache image. Tie: shape exactly and every pixel to 2^-40 against '
          'the model evaluated on the returned distributions (vm_compute), fresh and after earlier calls. Search: image vs synthesis, '
-         'out consistency, zero-weight pixels, valid flags, Transform wrapper, call history.'),
+         'out consistency, zero-weight pixels, valid flags, Transform wrapper, call history. The (height, width, row) table of rbasex_transform for the five out values is regenerated from the source (C16_out_dims_translated).'),
    note=BASE_NOTE + 'The Transform wrapper clause is swept; square roots are numpy values validated inside Coq by squaring.',
    technique='Coq proofs over list/index model + vm_compute correspondence + search',
    design='DESIGN.md §3 C16'),
@@ -197,18 +203,18 @@ CHECKS = {
          'reg=0); daun reg=0/None take the same path for all degrees; daun default equals onion_peeling given W = B^T, and the '
          'entry identity W[i][j] = daun0[j][i] over R; NNLS returns the unconstrained solution when it is feasible (solver by '
          'specification) and is unique; dasch wrappers pass arguments unchanged. Search: 37 paired option sets on random '
-         'half-images (sizes 3..120), wrappers and deprecated aliases.'),
+         'half-images (sizes 3..120) on 1-D, one-row and many-row inputs x dr, wrappers and deprecated aliases; the translator also executes _dasch_transform and daun_transform on one-row / 1-D input (C17_single_row_same_expression, C17_dasch_row_of_image, C17_daun_default_eq_onion_peeling_all_shapes).'),
    note=BASE_NOTE + '"Alternatives agree within their envelopes" (hold_order, degree, backend) is numeric only; the C backend of direct is not built in this sandbox.',
    technique='Coq/mathcomp proofs over regenerated expressions + paired-option search on implementation',
    design='DESIGN.md §3 C17'),
  'C18': dict(
    text=('Theorems: soundness of an executable may-alias checker for a small buffer language (every execution of a program the '
          'checker accepts leaves every argument buffer unchanged and returns no cache-held buffer), and by vm_compute that the '
-         'checker accepts the abstract programs REGENERATED from the current source for 95 public callables (named exceptions '
+         'checker accepts the abstract programs REGENERATED from the current source for all 99 public callables with a spec (named exceptions '
          'listed), with call summaries re-checked in Coq. Tie: fail-closed AST translator + static-vs-dynamic agreement. Search: '
          'dynamic harness on every public callable (dtypes, strided/read-only arguments, repeat, NaN-poisoned np.empty, '
-         'result mutation, fresh-process repeats).'),
-   note=BASE_NOTE + 'numpy/scipy aliasing summaries are a committed trusted table; interprocedural composition not formalised; 3 callables dynamic only.',
+         'result mutation, fresh-process repeats, reused objects of every public class with a shares-memory walk). C18_public_methods_safe: for the 16 translated public methods no other argument is written and no returned buffer is cached or part of the object.'),
+   note=BASE_NOTE + 'numpy/scipy aliasing summaries are a committed trusted table; interprocedural composition not formalised; benchmark classes and save16bitPNG are not covered by abstract programs; properties/classmethods/operator dunders dynamic only.',
    technique='Coq soundness proof of an alias analysis + regenerated abstract programs checked by vm_compute + dynamic harness',
    design='DESIGN.md §3 C18'),
  'C19': dict(
